@@ -12,6 +12,7 @@ CONSTANTS
   Leeways <- None_
   Deviations <- DevF6
   Variants <- Mech
+  Guests = FALSE
   TagTest = "isnone"
   BoxForm = "minmax"
 CONSTRAINT Depth9
